@@ -31,6 +31,31 @@
 static carquet_cpu_info_t g_cpu_info = {0};
 static volatile int g_initialized = 0;
 
+#ifdef CARQUET_VERIF
+/* Verification hook (never compiled by the project's own build): cap the *reported* CPU
+ * features with the bit mask in the environment variable CARQUET_VERIF_CPU_CAP so that one
+ * machine can drive the dispatcher through every capability set.  A cleared bit clears the
+ * flag; a set bit never turns a feature on that the CPU does not report. */
+#include <stdlib.h>
+static void carquet_verif_apply_cpu_cap(void) {
+    const char* s = getenv("CARQUET_VERIF_CPU_CAP");
+    if (!s || !*s) return;
+    unsigned long cap = strtoul(s, NULL, 0);
+    if (!(cap & (1ul << 0))) g_cpu_info.has_sse2 = 0;
+    if (!(cap & (1ul << 1))) g_cpu_info.has_sse41 = 0;
+    if (!(cap & (1ul << 2))) g_cpu_info.has_sse42 = 0;
+    if (!(cap & (1ul << 3))) g_cpu_info.has_avx = 0;
+    if (!(cap & (1ul << 4))) g_cpu_info.has_avx2 = 0;
+    if (!(cap & (1ul << 5))) g_cpu_info.has_avx512f = 0;
+    if (!(cap & (1ul << 6))) g_cpu_info.has_avx512bw = 0;
+    if (!(cap & (1ul << 7))) g_cpu_info.has_avx512vl = 0;
+    if (!(cap & (1ul << 8))) g_cpu_info.has_avx512vbmi = 0;
+}
+/* Forget the cached detection so that the next carquet_get_cpu_info() detects again
+ * (under a possibly different CARQUET_VERIF_CPU_CAP). */
+void carquet_verif_reset_cpu_info(void) { g_initialized = 0; }
+#endif
+
 /* External initialization functions for compression tables */
 extern void carquet_gzip_init_tables(void);
 extern void carquet_zstd_init_tables(void);
@@ -136,6 +161,10 @@ carquet_status_t carquet_init(void) {
     detect_x86_features();
 #elif defined(__aarch64__) || defined(_M_ARM64) || defined(__arm__) || defined(_M_ARM)
     detect_arm_features();
+#endif
+
+#ifdef CARQUET_VERIF
+    carquet_verif_apply_cpu_cap();
 #endif
 
     /* Initialize compression lookup tables.
